@@ -17,6 +17,13 @@ theorem Inv.pend_facts {s : PState} (h : Inv s) (hp : s.b .cpend = true ∨ s.b 
 theorem Inv.cpend_gpend {s : PState} (h : Inv s) (hp : s.b .cpend = true) : s.b .gpend = false := by
   spec_tac [s.b .em] using []
 
+theorem Inv.em_emp {s : PState} (h : Inv s) (he : s.b .em = true) : s.b .emp = true := by
+  spec_tac [] using []
+
+theorem Inv.gup_nonempty {s : PState} (h : Inv s) (hg : s.b .gup = true) (hc : s.b .cpend = false) :
+    s.b .emp = false := by
+  spec_tac [s.b .em] using []
+
 /-- `process_pending()`. -/
 theorem processPending_spec (g : Gh) (s : PState) (h : Inv s) (hp : s.hasSomethingPending = true) :
     Inv (processPending g s).2 ∧ SameSet s (processPending g s).2
@@ -63,6 +70,11 @@ theorem minimize_spec (g : Gh) (s : PState) (h : Inv s) :
     have hg : s.b .gup = true := by spec_tac [s.b .em] using []
     obtain ⟨h1, h2, h3⟩ := updateConstraints_spec g s h he' hd' hg hpp.1 hpp.2
     exact ⟨h1, h2, fun _ => ⟨h3.em, fun _ => h3⟩, fun hf => by simp at hf⟩
+
+/-- `minimize()` finds a polyhedron empty only if its set is empty. -/
+theorem minimize_false_emp (g : Gh) (s : PState) (h : Inv s) (hr : (minimize g s).1 = false) : s.b .emp = true := by
+  obtain ⟨h1, h2, _, h4⟩ := minimize_spec g s h
+  rw [← h2.emp]; exact h1.em_emp (h4 hr)
 
 /-- `is_empty()`: the answer is the `EM` flag afterwards. -/
 theorem isEmpty_spec (g : Gh) (s : PState) (h : Inv s) :
